@@ -57,9 +57,17 @@ class QMap(afmformats.AFMQMap):
                   cache=False)
     def feat_fit_youngs_modulus(idnt):
         """Young's modulus"""
-        if idnt.fit_properties.get("success", False):
+        fitted = idnt.fit_properties.get("success", False)
+        if fitted and "E" in idnt.fit_properties["params_fitted"]:
             # use cached young's modulus
             value = idnt.fit_properties["params_fitted"]["E"].value
+        elif fitted:
+            # Models such as "power_layer_clifford_2009" (or user-defined
+            # models) do not have a parameter named "E".
+            msg = "The model '{}' used for {} does not have the parameter " \
+                  "'E'!".format(idnt.fit_properties["model_key"], idnt)
+            warnings.warn(msg, DataMissingWarning)
+            value = np.nan
         else:
             msg = "The experimental data has not been fitted. Please call " \
                   + "`idnt.fit_model` manually for {}!".format(idnt)
